@@ -1,5 +1,5 @@
 SPECIFICATION Spec
-CONSTANTS Alphabet = {33, 45, 48, 97}
+CONSTANTS Alphabet = {45, 48, 92, 97}
  MaxNameLen = 2
  MaxDepth = 2
  Triples = TRUE
